@@ -966,6 +966,36 @@ def r13_4(ctx: Ctx) -> None:
             ctx.fail("R13.4", f"{inst.path}::SoftwareManager::registry {attr} added on install and removed on uninstall", inst.loc(adds[0]),
                      f"install adds to '{attr}' but uninstall never removes from it")
     ctx.floor("R13.4", "registries kept by install/uninstall", n_reg, 6)
+    # the install request answers "already installed" exactly when the requested *name* is in the table install() fills (keyed by
+    # name): any other test (class identity, isinstance - DoSBot is a DatabaseClient) reports software installed that is not there
+    irm = ix.method("Node._init_request_manager")
+    h = next((f for f in ix.nested_funcs(irm) if f.name == "_install_application"), None)
+    if h is None:
+        raise AnalysisError("R13.4: the application install handler was not found")
+    gh = CFG(h.node)
+    ldh = LocalDefs(h.node)
+    already = [n for n in gh.nodes if n.kind == "stmt" and isinstance(n.ast, ast.Return) and n.ast.value is not None and "already installed" in unparse(n.ast.value)]
+    if not already:
+        raise AnalysisError("R13.4: the install handler no longer answers 'already installed'")
+
+    def name_lookup(e) -> bool:
+        if not (e.label and e.label[0] == "cond" and e.label[2] is True):
+            return False
+        x = ldh.expand(e.label[1])
+        key_ok = lambda k: isinstance(ldh.expand(k), ast.Subscript) and unparse(ldh.expand(k).value) == h.node.args.args[0].arg
+        if isinstance(x, ast.Call) and isinstance(x.func, ast.Attribute) and x.func.attr == "get" and unparse(x.func.value).endswith("software_manager.software") \
+                and x.args and key_ok(x.args[0]):
+            return True
+        if isinstance(x, ast.Compare) and len(x.ops) == 1 and isinstance(x.ops[0], ast.In) and unparse(x.comparators[0]).endswith("software_manager.software") \
+                and key_ok(x.left):
+            return True
+        return False
+
+    p = gh.path_avoiding(already, name_lookup)
+    ctx.record("R13.4", ctx.key(h, "'already installed' is decided by the requested name in software_manager.software"), h.loc(already[0].ast), p is None,
+               "answered only on the edge where the requested name is found in the software table" if p is None else
+               "the 'already installed' answer does not rest on a look-up of the requested name in the table install() fills: a request can be "
+               "acknowledged while the software, its route and its port are absent", path_text(p))
     # the dispatch table is single-valued: installing a package must not silently evict another package's entry
     groups: Dict[Tuple[str, str], List[str]] = {}
     for base in ("Service", "Application"):
